@@ -105,6 +105,10 @@ class CompiledLogicNet(torch.nn.Module):
         # Find GroupSum layer for num_classes
         for layer in self.model:
             if isinstance(layer, GroupSum):
+                # k and tau may have been assigned after construction: a model that raises on every input has no function to compile
+                if not layer.k > 0:
+                    raise ValueError(f"Cannot compile a GroupSum with k = {layer.k}.")
+                layer._check_tau(layer.tau)
                 if bool(torch.as_tensor(layer.beta).ne(0).any()):
                     # the library returns the integer per-class counts; an offset (possibly per class) cannot be expressed
                     raise ValueError("Cannot compile a GroupSum with a non-zero offset beta.")
@@ -189,10 +193,15 @@ class CompiledLogicNet(torch.nn.Module):
     def _refuse_patched(module):
         """A module whose forward was replaced on the instance, or that carries forward hooks, computes something else than
         its class says; the translation follows the class."""
-        if "forward" in vars(module) or module._forward_hooks or module._forward_pre_hooks:
+        patched = [name for name, value in vars(module).items() if callable(value) and callable(getattr(type(module), name, None))]
+        if patched or module._forward_hooks or module._forward_pre_hooks:
+            # forward itself, or a method forward goes through (forward_python, _raw_level_weights, ...), assigned on the instance
             raise ValueError(
-                f"Cannot compile a {type(module).__name__} whose forward was replaced on the instance or that has forward hooks."
+                f"Cannot compile a {type(module).__name__} whose methods were replaced on the instance ({patched}) or that has forward hooks."
             )
+        hooks = torch.nn.modules.module
+        if hooks._global_forward_hooks or hooks._global_forward_pre_hooks:
+            raise ValueError("Cannot compile while global module forward hooks are registered: they may change what the modules compute.")
 
     def _validate_structure(self):
         """Refuse models whose structure the code generator cannot translate faithfully."""
